@@ -14,15 +14,10 @@ Proof. exact p1_spec. Qed.
    line ends on a character boundary; otherwise an error (C16) *)
 Theorem C01_str : forall s, utf8_valid s = true -> is_char_boundary s (window_end s) = true ->
   forall hd, p1s s = Ok hd <-> spec_v1 s = Some hd.
-Proof.
-  intros s Hu Hb hd. rewrite <- p1_spec. destruct (entry_points_agree s Hu Hb) as (E & _). rewrite E.
-  destruct (p1s s); cbn [map_err]; split; intros H; try discriminate; now inversion H.
-Qed.
+Proof. exact p1s_spec. Qed.
 
 Theorem C01_reject : forall x, spec_v1 x = None -> exists e, p1 x = Err e.
-Proof.
-  intros x H. destruct (p1 x) as [hd|e] eqn:E; [|eauto]. apply p1_spec in E. congruence.
-Qed.
+Proof. exact p1_rejects. Qed.
 
 (* the model of the standard-library parsers agrees with the independent split-based grammar *)
 Theorem C01_ipv4_grammar : forall s, parse_ipv4 s = spec_ip4 s.
